@@ -294,8 +294,7 @@ Definition spec_step (s : spec) (o : op) : spec :=
    compact: index at most the last index (the doc asks for <= RaftLog.applied,
    which is <= last; so compaction never empties the log);
    commit_to: the entry exists;  apply_snapshot: any (index + 1 fits a u64);
-   entries: high <= last + 1, low <= high, and -- undocumented -- at least one
-   entry is held (see entries_empty_range_panics);
+   entries: high <= last + 1, low <= high;
    snapshot: the commit index designates the snapshot point or a held entry. *)
 Definition spre (s : spec) (o : op) : Prop :=
   match o with
@@ -312,7 +311,7 @@ Definition spre (s : spec) (o : op) : Prop :=
       end
   | OInitConf _ => cs_eqb (sp_cs s) cs_default = true
   | QEntries lo hi _ _ =>
-      lo < sp_first s \/ (lo <= hi <= sp_next s /\ sp_ents s <> [])
+      lo < sp_first s \/ lo <= hi <= sp_next s
   | QSnapshot _ _ => commit_ok s
   | _ => True
   end.
@@ -689,37 +688,35 @@ Proof.
 Qed.
 
 Lemma entries_eq : forall m lo hi max ctx,
-    RepInv m -> entries m <> [] ->
+    RepInv m ->
     first_of m <= lo -> lo <= hi -> hi <= next_of m ->
     trig_log m && can_async ctx = false ->
     storage_entries m lo hi max ctx = Ok (m, SOk (limit_size (range_of m lo hi) max)).
 Proof.
-  intros m lo hi max ctx HI Hne H1 H2 H3 Ht.
+  intros m lo hi max ctx HI H1 H2 H3 Ht.
   unfold storage_entries. rewrite (first_index_ok m HI). cbn [bind].
   pose proof (last_index_next m HI) as Hl. pose proof (last_index_lt_max m HI) as Hm.
   destruct (lo <? first_of m) eqn:E1; [lia|].
   destruct (last_index m =? u64_max) eqn:E2; [lia|].
   destruct (last_index m + 1 <? hi) eqn:E3; [lia|].
   rewrite Ht.
-  destruct (entries m) as [|e0 l] eqn:El; [congruence|].
-  rewrite (entries_head_index m e0 l El).
   destruct (hi <? first_of m) eqn:E4; [lia|].
   destruct (N.to_nat (hi - first_of m) <? N.to_nat (lo - first_of m))%nat eqn:E5; [lia|].
-  destruct (length (e0 :: l) <? N.to_nat (hi - first_of m))%nat eqn:E6.
-  { unfold next_of in H3. rewrite El in H3. lia. }
-  unfold range_of. rewrite El.
+  destruct (length (entries m) <? N.to_nat (hi - first_of m))%nat eqn:E6.
+  { unfold next_of in H3. lia. }
+  unfold range_of.
   replace (N.to_nat (hi - first_of m) - N.to_nat (lo - first_of m))%nat
     with (N.to_nat (hi - lo)) by lia.
   reflexivity.
 Qed.
 
-(* Main read theorem: for first <= lo <= hi <= last+1 on a store holding at
-   least one entry, entries returns (a) a prefix of the entries lo..hi-1,
+(* Main read theorem: for first <= lo <= hi <= last+1 (including a store that
+   holds no entry, where lo = hi = first), entries returns (a) a prefix of the entries lo..hi-1,
    (b) non-empty when lo < hi, (c) within max unless a single entry, and maximal:
    the next entry would exceed max; the whole range when max is None/NO_LIMIT or
    the range has at most one entry. *)
 Theorem entries_spec : forall m lo hi max ctx,
-    RepInv m -> entries m <> [] ->
+    RepInv m ->
     first_of m <= lo -> lo <= hi -> hi <= next_of m ->
     trig_log m && can_async ctx = false ->
     exists r, storage_entries m lo hi max ctx = Ok (m, SOk r)
@@ -731,7 +728,7 @@ Theorem entries_spec : forall m lo hi max ctx,
             /\ ((length r < length (range_of m lo hi))%nat ->
                 mx < total_size entry_size (firstn (S (length r)) (range_of m lo hi)))).
 Proof.
-  intros m lo hi max ctx HI Hne H1 H2 H3 Ht.
+  intros m lo hi max ctx HI H1 H2 H3 Ht.
   exists (limit_size (range_of m lo hi) max).
   split; [apply entries_eq; assumption|].
   destruct (range_of_spec m lo hi HI H1 H2 H3) as (Hrc & Hrl & _).
@@ -782,55 +779,59 @@ Proof.
   rewrite Ht. reflexivity.
 Qed.
 
-(* The core.entries[0] panic: a store that holds no entry (fresh, or right after
-   apply_snapshot, or emptied by compact(last+1)) panics on EVERY read that
-   passes the two range checks, in particular on the empty range
-   entries(first, first), which on a non-empty store returns Ok([]). *)
-Lemma entries_empty_range_panics : forall m lo hi max ctx,
+(* A store that holds no entry (fresh, right after apply_snapshot, or emptied
+   by compact(last+1)) answers Ok([]) to the only in-range read, the empty range
+   entries(first, first).  (Before /repo 9c2e6d6 this read indexed entries[0] and
+   panicked.) *)
+Lemma entries_empty_store : forall m lo hi max ctx,
     RepInv m -> entries m = [] ->
-    first_of m <= lo -> hi <= first_of m ->
+    first_of m <= lo -> lo <= hi -> hi <= next_of m ->
     trig_log m && can_async ctx = false ->
-    storage_entries m lo hi max ctx = Panic site_entries_entries0.
+    storage_entries m lo hi max ctx = Ok (m, SOk []).
 Proof.
-  intros m lo hi max ctx HI He H1 H2 Ht. unfold storage_entries.
-  rewrite (first_index_ok m HI). cbn [bind].
-  pose proof (last_index_next m HI) as Hl. pose proof (last_index_lt_max m HI) as Hm.
-  rewrite (entries_nil_next m He) in Hl.
-  destruct (lo <? first_of m) eqn:E1; [lia|].
-  destruct (last_index m =? u64_max) eqn:E2; [lia|].
-  destruct (last_index m + 1 <? hi) eqn:E3; [lia|].
-  rewrite Ht, He. reflexivity.
+  intros m lo hi max ctx HI He H1 H2 H3 Ht.
+  rewrite (entries_eq m lo hi max ctx HI H1 H2 H3 Ht).
+  unfold range_of. rewrite He, skipn_nil, firstn_nil. reflexivity.
 Qed.
 
-(* a reversed range on a non-empty store fails in the index arithmetic *)
+(* the empty range is always answered Ok([]) *)
+Lemma entries_empty_range : forall m lo max ctx,
+    RepInv m -> first_of m <= lo <= next_of m ->
+    trig_log m && can_async ctx = false ->
+    storage_entries m lo lo max ctx = Ok (m, SOk []).
+Proof.
+  intros m lo max ctx HI [H1 H2] Ht.
+  rewrite (entries_eq m lo lo max ctx HI H1 ltac:(lia) H2 Ht).
+  unfold range_of. replace (N.to_nat (lo - lo)) with O by lia. reflexivity.
+Qed.
+
+(* a reversed range fails in the index arithmetic *)
 Lemma entries_reversed_panics : forall m lo hi max ctx,
-    RepInv m -> entries m <> [] ->
+    RepInv m ->
     first_of m <= lo -> hi < lo -> hi <= next_of m ->
     trig_log m && can_async ctx = false ->
     storage_entries m lo hi max ctx =
     Panic (if hi <? first_of m then site_entries_hi_underflow else site_entries_slice_order).
 Proof.
-  intros m lo hi max ctx HI Hne H1 H2 H3 Ht. unfold storage_entries.
+  intros m lo hi max ctx HI H1 H2 H3 Ht. unfold storage_entries.
   rewrite (first_index_ok m HI). cbn [bind].
   pose proof (last_index_next m HI) as Hl. pose proof (last_index_lt_max m HI) as Hm.
   destruct (lo <? first_of m) eqn:E1; [lia|].
   destruct (last_index m =? u64_max) eqn:E2; [lia|].
   destruct (last_index m + 1 <? hi) eqn:E3; [lia|].
   rewrite Ht.
-  destruct (entries m) as [|e0 l] eqn:El; [congruence|].
-  rewrite (entries_head_index m e0 l El).
   destruct (hi <? first_of m) eqn:E4; [reflexivity|].
   destruct (N.to_nat (hi - first_of m) <? N.to_nat (lo - first_of m))%nat eqn:E5; [reflexivity|lia].
 Qed.
 
-(* Complete classification of the panics of entries on a well-formed store. *)
+(* Complete classification of the panics of entries on a well-formed store:
+   the documented one (high > last_index + 1) and reversed ranges. *)
 Theorem entries_panics_iff : forall m lo hi max ctx,
     RepInv m ->
     ((exists s, storage_entries m lo hi max ctx = Panic s)
      <-> first_of m <= lo
          /\ (next_of m < hi
-             \/ (trig_log m && can_async ctx = false
-                 /\ (entries m = [] \/ hi < lo)))).
+             \/ (trig_log m && can_async ctx = false /\ hi < lo))).
 Proof.
   intros m lo hi max ctx HI.
   destruct (lo <? first_of m) eqn:E1.
@@ -843,45 +844,31 @@ Proof.
   { rewrite (entries_log_unavailable m lo hi max ctx HI ltac:(lia) ltac:(lia) Et).
     split; [intros [s Hs]; discriminate|].
     intros [_ [H|[H _]]]; [lia|discriminate]. }
-  destruct (entries m) as [|e0 l] eqn:El.
-  { assert (Hn : next_of m = first_of m) by (apply entries_nil_next; exact El).
-    rewrite (entries_empty_range_panics m lo hi max ctx HI El ltac:(lia) ltac:(lia) Et).
-    split; [intros _; split; [lia|right; split; [reflexivity|left; reflexivity]]|eauto]. }
-  assert (Hne : entries m <> []) by (rewrite El; discriminate).
   destruct (hi <? lo) eqn:E3.
-  { rewrite (entries_reversed_panics m lo hi max ctx HI Hne ltac:(lia) ltac:(lia) ltac:(lia) Et).
-    split; [intros _; split; [lia|right; split; [reflexivity|right; lia]]|eauto]. }
-  rewrite (entries_eq m lo hi max ctx HI Hne ltac:(lia) ltac:(lia) ltac:(lia) Et).
+  { rewrite (entries_reversed_panics m lo hi max ctx HI ltac:(lia) ltac:(lia) ltac:(lia) Et).
+    split; [intros _; split; [lia|right; split; [reflexivity|lia]]|eauto]. }
+  rewrite (entries_eq m lo hi max ctx HI ltac:(lia) ltac:(lia) ltac:(lia) Et).
   split; [intros [s Hs]; discriminate|].
-  intros [_ [H|[_ [H|H]]]]; [lia|discriminate|lia].
+  intros [_ [H|[_ H]]]; lia.
 Qed.
 
-(* exactly when the entries[0] site fires *)
-Theorem entries_entries0_iff : forall m lo hi max ctx,
-    RepInv m ->
-    (storage_entries m lo hi max ctx = Panic site_entries_entries0
-     <-> entries m = [] /\ first_of m <= lo /\ hi <= first_of m
-         /\ trig_log m && can_async ctx = false).
+(* the retired entries[0] site never fires *)
+Theorem entries_entries0_never : forall m lo hi max ctx,
+    RepInv m -> storage_entries m lo hi max ctx <> Panic site_entries_entries0.
 Proof.
-  intros m lo hi max ctx HI. split.
-  - intros Hp.
-    destruct (lo <? first_of m) eqn:E1.
-    { rewrite (entries_compacted m lo hi max ctx HI ltac:(lia)) in Hp. discriminate. }
-    destruct (next_of m <? hi) eqn:E2.
-    { rewrite (entries_oob_panics m lo hi max ctx HI ltac:(lia) ltac:(lia)) in Hp.
-      discriminate. }
-    destruct (trig_log m && can_async ctx) eqn:Et.
-    { rewrite (entries_log_unavailable m lo hi max ctx HI ltac:(lia) ltac:(lia) Et) in Hp.
-      discriminate. }
-    destruct (entries m) as [|e0 l] eqn:El.
-    { pose proof (entries_nil_next m El). repeat split; lia. }
-    assert (Hne : entries m <> []) by (rewrite El; discriminate).
-    destruct (hi <? lo) eqn:E3.
-    { rewrite (entries_reversed_panics m lo hi max ctx HI Hne ltac:(lia) ltac:(lia) ltac:(lia) Et) in Hp.
-      destruct (hi <? first_of m); discriminate. }
-    rewrite (entries_eq m lo hi max ctx HI Hne ltac:(lia) ltac:(lia) ltac:(lia) Et) in Hp.
-    discriminate.
-  - intros (He & H1 & H2 & Ht). apply entries_empty_range_panics; assumption.
+  intros m lo hi max ctx HI Hp.
+  destruct (lo <? first_of m) eqn:E1.
+  { rewrite (entries_compacted m lo hi max ctx HI ltac:(lia)) in Hp. discriminate. }
+  destruct (next_of m <? hi) eqn:E2.
+  { rewrite (entries_oob_panics m lo hi max ctx HI ltac:(lia) ltac:(lia)) in Hp. discriminate. }
+  destruct (trig_log m && can_async ctx) eqn:Et.
+  { rewrite (entries_log_unavailable m lo hi max ctx HI ltac:(lia) ltac:(lia) Et) in Hp.
+    discriminate. }
+  destruct (hi <? lo) eqn:E3.
+  { rewrite (entries_reversed_panics m lo hi max ctx HI ltac:(lia) ltac:(lia) ltac:(lia) Et) in Hp.
+    destruct (hi <? first_of m); discriminate. }
+  rewrite (entries_eq m lo hi max ctx HI ltac:(lia) ltac:(lia) ltac:(lia) Et) in Hp.
+  discriminate.
 Qed.
 
 (* ---------- snapshot ---------- *)
@@ -1049,12 +1036,12 @@ Proof.
     destruct (low <? first_of m) eqn:E.
     + rewrite (entries_compacted m low high max ctx HI ltac:(lia)). cbn [bind fst snd].
       eexists _, _. split; [reflexivity|]. split; [exact HI|reflexivity].
-    + destruct Hp as [Hp|((H1 & H2) & Hne)]; [lia|].
+    + destruct Hp as [Hp|(H1 & H2)]; [lia|].
       destruct (trig_log m && can_async ctx) eqn:Et.
       * rewrite (entries_log_unavailable m low high max ctx HI ltac:(lia) H2 Et).
         cbn [bind fst snd].
         eexists _, _. split; [reflexivity|]. split; [apply Hsame; reflexivity|reflexivity].
-      * rewrite (entries_eq m low high max ctx HI Hne ltac:(lia) H1 H2 Et).
+      * rewrite (entries_eq m low high max ctx HI ltac:(lia) H1 H2 Et).
         cbn [bind fst snd].
         eexists _, _. split; [reflexivity|]. split; [exact HI|reflexivity].
   - (* term *)
@@ -1131,7 +1118,7 @@ Theorem history_from_new : forall ops,
       /\ storage_last_index m + 1 = sp_next (abs m)
       /\ (forall i, storage_term m i = Ok (spec_term (abs m) i))
       /\ (forall lo hi max ctx,
-            sp_ents (abs m) <> [] -> sp_first (abs m) <= lo -> lo <= hi ->
+            sp_first (abs m) <= lo -> lo <= hi ->
             hi <= sp_next (abs m) -> trig_log m && can_async ctx = false ->
             storage_entries m lo hi max ctx
             = Ok (m, SOk (limit_size (spec_range (abs m) lo hi) max))).
@@ -1144,7 +1131,7 @@ Proof.
   split; [apply first_index_spec; exact HI|].
   split; [apply last_index_spec; exact HI|].
   split; [intros i; apply term_refines; exact HI|].
-  intros lo hi max ctx Hne H1 H2 H3 Ht.
+  intros lo hi max ctx H1 H2 H3 Ht.
   rewrite <- range_refines. apply entries_eq; assumption.
 Qed.
 
@@ -1329,21 +1316,11 @@ Example ex_state_entries :
     = Ok (ex_state, SOk (entries ex_state)).
 Proof. repeat split; vm_compute; reflexivity. Qed.
 
-(* F: a fresh store panics on the empty read entries(1, 1) ... *)
-Example new_entries_empty_range_panics :
-  storage_entries new 1 1 None (CtxEmpty false) = Panic site_entries_entries0.
+(* a fresh store answers the empty read entries(1, 1) with Ok([])
+   (it panicked at entries[0] before /repo 9c2e6d6) *)
+Example new_entries_empty_range :
+  storage_entries new 1 1 None (CtxEmpty false) = Ok (new, SOk []).
 Proof. reflexivity. Qed.
-
-(* ... whereas a store holding an entry answers Ok([]) to entries(first, first) *)
-Lemma entries_empty_range_nonempty_store : forall m lo max ctx,
-    RepInv m -> entries m <> [] -> first_of m <= lo <= next_of m ->
-    trig_log m && can_async ctx = false ->
-    storage_entries m lo lo max ctx = Ok (m, SOk []).
-Proof.
-  intros m lo max ctx HI Hne [H1 H2] Ht.
-  rewrite (entries_eq m lo lo max ctx HI Hne H1 ltac:(lia) H2 Ht).
-  unfold range_of. replace (N.to_nat (lo - lo)) with O by lia. reflexivity.
-Qed.
 
 (* F: compact(last + 1) rewinds first_index/last_index to the snapshot point *)
 Example compact_all_example :
